@@ -63,6 +63,14 @@ EW = {
     'conjugate': (algopy.conjugate, lambda lo, hi: (lo, hi), lambda lo, hi: True),      # on real data: the identity, still one node
     'real': (algopy.real, lambda lo, hi: (lo, hi), lambda lo, hi: True),                  # on real data: the identity
     'imag': (algopy.imag, lambda lo, hi: (0.0, 0.0), lambda lo, hi: True),                # on real data: zero
+    # real value -> complex intermediate -> real value, through subtraction / division / power nodes whose result is complex while
+    # one operand is real
+    'csub': (lambda x: algopy.imag(x * (1.0 + 2.0j) - x) + algopy.real(x - x * (0.5 + 1.0j)), lambda lo, hi: (2.5 * lo, 2.5 * hi),
+             lambda lo, hi: max(abs(lo), abs(hi)) < 6),
+    'cdiv': (lambda x: algopy.imag(x * (1.0 + 2.0j) / (x * x + 1.0)) + algopy.imag((2.0 + 1.0j) / (x * x + 1.0)), lambda lo, hi: (-1.0, 2.0),
+             lambda lo, hi: max(abs(lo), abs(hi)) < 4),
+    'cpow': (lambda x: algopy.real((x * x + 1.0) ** (1.0 + 1.0j)), lambda lo, hi: (-(max(abs(lo), abs(hi)) ** 2 + 1), max(abs(lo), abs(hi)) ** 2 + 1),
+             lambda lo, hi: max(abs(lo), abs(hi)) < 3),
     'pow2': (lambda x: x ** 2, _sym_even(lambda v: v * v), lambda lo, hi: max(abs(lo), abs(hi)) < 6),
     'pow3': (lambda x: x ** 3, _mono(lambda v: v ** 3), lambda lo, hi: max(abs(lo), abs(hi)) < 4),
     'powm2': (lambda x: x ** (-2), lambda lo, hi: (1 / hi ** 2, 1 / lo ** 2), lambda lo, hi: lo > 0.3),
@@ -75,7 +83,7 @@ BIN = {'add': lambda a, b: a + b, 'sub': lambda a, b: a - b, 'mul': lambda a, b:
 
 # element-wise functions the tracer can record (Function has a method / pb_* exists)
 TRACEABLE = {'sin', 'cos', 'tan', 'exp', 'expm1', 'square', 'negative', 'log', 'log1p', 'sqrt', 'reciprocal', 'erf', 'expit',
-             'logit', 'dawsn', 'gammaln', 'psi', 'absolute', 'sign', 'pow2', 'pow3', 'powm2', 'pow1.5', 'conjugate', 'real', 'imag', 'polygammaA'}
+             'logit', 'dawsn', 'gammaln', 'psi', 'absolute', 'sign', 'pow2', 'pow3', 'powm2', 'pow1.5', 'conjugate', 'real', 'imag', 'polygammaA', 'csub', 'cdiv', 'cpow'}
 
 
 def _imul(a, b):
@@ -285,7 +293,7 @@ class Gen:
         n = int(np.prod(self.vars[a]['shape']))
         opts = {2: [(2,), (1, 2), (2, 1)], 3: [(3,), (3, 1), (1, 3)], 4: [(4,), (2, 2)], 6: [(6,), (2, 3), (3, 2)], 9: [(9,), (3, 3)]}[n]
         t = self.rng.choice(opts)
-        self.steps.append({'op': 'reshape', 'a': a, 'shape': list(t), 'how': self.rng.choice(['fn', 'method'])})
+        self.steps.append({'op': 'reshape', 'a': a, 'shape': list(t), 'how': self.rng.choice(['fn', 'method', 'varargs'])})
         self.new(t, self.vars[a]['iv'], view=True)
         return True
 
@@ -582,7 +590,7 @@ class Gen:
         if a is None:
             return False
         n = self.rng.choice([2, 2, 3])
-        kind = self.rng.choice(['inv', 'solve', 'det', 'logdet', 'trace', 'qr', 'cholesky', 'eigh', 'eighQ', 'lu', 'svd', 'qr_full', 'eig'])
+        kind = self.rng.choice(['inv', 'solve', 'det', 'logdet', 'trace', 'qr', 'cholesky', 'eigh', 'eighQ', 'lu', 'svd', 'qr_full', 'eig', 'cinv', 'csolve', 'csolve_rhs', 'cexpm'])
         if self.allow is not None and ('la:' + kind) not in self.allow and 'la' not in self.allow:
             return False
         sym = kind in ('cholesky', 'eigh', 'eighQ', 'logdet', 'eig')
@@ -593,7 +601,8 @@ class Gen:
         m = self.new((n, n), (-2.0, 6.0))
         self.steps.append({'op': 'la', 'kind': kind, 'a': m})
         shape = {'inv': (n, n), 'solve': (n,), 'det': (), 'logdet': (), 'trace': (), 'qr': (n, n), 'cholesky': (n, n),
-                 'eigh': (n,), 'eighQ': (n, n), 'lu': (n, n), 'svd': (n,), 'qr_full': (n, n), 'eig': (n,)}[kind]
+                 'eigh': (n,), 'eighQ': (n, n), 'lu': (n, n), 'svd': (n,), 'qr_full': (n, n), 'eig': (n,),
+                 'cinv': (n, n), 'csolve': (n,), 'csolve_rhs': (n,), 'cexpm': (n, n)}[kind]
         self.new(shape, (-20.0, 20.0))
         return True
 
@@ -661,6 +670,17 @@ def _la(kind, M, post=False):
         n = M.shape[0]
         b = M[:, 0:1] * 2.0 + 1.0
         return algopy.reshape(algopy.solve(M, b), (n,))
+    if kind == 'cinv':            # the matrix is a complex intermediate of a program with real input and output
+        return algopy.imag(algopy.inv(M * (1.0 + 1.0j)))
+    if kind == 'csolve':
+        n = M.shape[0]
+        b = M[:, 0:1] * 2.0j + 1.0
+        return algopy.imag(algopy.reshape(algopy.solve(M * (1.0 + 1.0j), b), (n,)))
+    if kind == 'csolve_rhs':      # real matrix, complex right-hand side
+        n = M.shape[0]
+        return algopy.imag(algopy.reshape(algopy.solve(M, M[:, 0:1] * (1.0 + 2.0j) + 1.0j), (n,)))
+    if kind == 'cexpm':
+        return algopy.real(algopy.expm(M * (0.05 + 0.05j)))
     if kind == 'det':
         return algopy.det(M)
     if kind == 'logdet':
@@ -712,6 +732,8 @@ def run_program(prog, inputs):
         elif op == 'getitem':
             idx = tuple(st['idx'])
             vals.append(vals[st['a']][idx[0]] if st.get('bare') and len(idx) == 1 else vals[st['a']][idx])
+        elif op == 'flatget':
+            vals.append(vals[st['a']].flat[st['i']])
         elif op == 'sum':
             vals.append(algopy.sum(vals[st['a']]) if st['axis'] is None else algopy.sum(vals[st['a']], axis=st['axis']))
         elif op == 'prod':
@@ -719,7 +741,9 @@ def run_program(prog, inputs):
         elif op == 'transpose':
             vals.append(vals[st['a']].T if st['how'] == 'T' else algopy.transpose(vals[st['a']]))
         elif op == 'reshape':
-            vals.append(algopy.reshape(vals[st['a']], tuple(st['shape'])))
+            how = st.get('how')
+            vals.append(vals[st['a']].reshape(tuple(st['shape'])) if how == 'method' else
+                        vals[st['a']].reshape(*st['shape']) if how == 'varargs' else algopy.reshape(vals[st['a']], tuple(st['shape'])))
         elif op == 'dot':
             vals.append(algopy.dot(vals[st['a']], vals[st['b']]))
         elif op == 'dotc':
